@@ -106,10 +106,25 @@ class FwdKwargsSchema(CustomSchema[FwdProps], absn.Fwd):
         return self.__class__(self.props.update(inner=self.props.inner.__accept__(visitor, **kwargs)))
 
 
+def _named_like_builtin():
+    """a forwarding custom type whose class name is that of a built-in schema class (a user's own module may well
+    define an IntSchema / DateSchema of its own): dispatch must not depend on the name"""
+    class IntSchema(FwdSchema):          # noqa: shadows nothing outside this function
+        pass
+
+    class DateSchema(CustomSchema[FwdProps], _FwdHooks, absn.Fwd):
+        pass
+    return IntSchema, DateSchema
+
+
+FwdNamedIntSchema, FwdNamedDateSchema = _named_like_builtin()
+register_type(TYPE_NAME + "_named_int", FwdNamedIntSchema)
+register_type(TYPE_NAME + "_named_date", FwdNamedDateSchema)
 register_type(TYPE_NAME + "_mixin", FwdMixinSchema)
 register_type(TYPE_NAME + "_child", FwdChildSchema)
 register_type(TYPE_NAME + "_kwargs", FwdKwargsSchema)
-_FACADES = [TYPE_NAME, TYPE_NAME + "_mixin", TYPE_NAME + "_child", TYPE_NAME + "_kwargs"]
+_FACADES = [TYPE_NAME, TYPE_NAME + "_mixin", TYPE_NAME + "_child", TYPE_NAME + "_kwargs", TYPE_NAME + "_named_int",
+            TYPE_NAME + "_named_date"]
 
 
 def fwd(inner, which=0):
